@@ -49,6 +49,7 @@ var xlateTargets = map[string][]string{
 		"treeCodec.Encode", "treeCodec.Decode", "treeReverseCodec.Encode", "treeReverseCodec.Decode",
 		"prob.Encode", "prob.Decode", "lengthCodec.Encode", "lengthCodec.Decode",
 		"distCodec.Encode", "distCodec.Decode",
+		"literalCodec.Encode", "literalCodec.Decode",
 	},
 	".": {"padLen", "readUvarint"},
 }
@@ -296,7 +297,9 @@ type xctx struct {
 	scope   []types.Object // variables in scope, in declaration order (for loop tuples)
 	tmp     int
 	idxMemo map[*ast.IndexExpr]string
-	aliases map[types.Object]ast.Expr // local pointer variables bound to `&lvalue`: compile-time aliases
+	aliases map[types.Object]ast.Expr   // local pointer variables bound to `&lvalue`: compile-time aliases
+	views   map[types.Object]*sliceView // local slices bound to `base[lo:hi]`: views into the base slice
+	natVars []string                    // immutable Nat variables (view bounds) that loops must receive as parameters
 	pre     []func(string) string
 	depth   int
 	// loop context
@@ -584,6 +587,15 @@ func (c *xctx) complit(cl *ast.CompositeLit) string {
 
 func (c *xctx) index(v *ast.IndexExpr) string {
 	xt := c.x.info.Types[v.X].Type.Underlying()
+	if vw := c.viewOf(v.X); vw != nil {
+		sl := xt.(*types.Slice)
+		i, ok := c.idxMemo[v]
+		if !ok {
+			i = c.viewIndex(v, vw)
+			c.idxMemo[v] = i
+		}
+		return fmt.Sprintf("(%s.getD %s %s)", c.expr(vw.base), i, c.x.zeroOf(v, sl.Elem()))
+	}
 	if at, ok := xt.(*types.Array); ok && !c.isGlobalArray(v.X) {
 		arr := c.expr(v.X)
 		i, ok := c.idxMemo[v]
@@ -629,6 +641,34 @@ func (c *xctx) index(v *ast.IndexExpr) string {
 		return fmt.Sprintf("let %s := %s%sif %s%d ≤ %s then Go.Res.panic \"index out of range\" else%s%s", i, nat, c.ind(), neg, n, i, c.ind(), rest)
 	})
 	return fmt.Sprintf("(%s.getD %s %s)", arr, i, c.x.zeroOf(v, at.Elem()))
+}
+
+func (c *xctx) viewOf(e ast.Expr) *sliceView {
+	id, ok := e.(*ast.Ident)
+	if !ok {
+		return nil
+	}
+	o := c.x.info.Uses[id]
+	if o == nil {
+		return nil
+	}
+	return c.views[o]
+}
+
+// viewIndex: index into a view, as an index into its base (range check against the view's length)
+func (c *xctx) viewIndex(v *ast.IndexExpr, vw *sliceView) string {
+	_, signed, iok := intInfo(c.x.info.Types[v.Index].Type)
+	if !iok || signed {
+		c.x.fail(v, "index into a slice view must be unsigned")
+	}
+	idx := c.expr(v.Index)
+	i := c.fresh("i")
+	c.f.canFail = true
+	lo, hi := vw.lo, vw.hi
+	c.pre = append(c.pre, func(rest string) string {
+		return fmt.Sprintf("if %s - %s ≤ (%s).toNat then Go.Res.panic \"index out of range\" else%slet %s := %s + (%s).toNat%s%s", hi, lo, idx, c.ind(), i, lo, idx, c.ind(), rest)
+	})
+	return i
 }
 
 func (c *xctx) isGlobalArray(e ast.Expr) bool {
@@ -787,6 +827,15 @@ func (c *xctx) path(e ast.Expr) (types.Object, []string) {
 			return o, append(p, c.fieldChain(v, sel)...)
 		}
 	case *ast.IndexExpr:
+		if vw := c.viewOf(v.X); vw != nil {
+			o, p := c.path(vw.base)
+			i, ok := c.idxMemo[v]
+			if !ok {
+				i = c.viewIndex(v, vw)
+				c.idxMemo[v] = i
+			}
+			return o, append(p, "["+i+"]")
+		}
 		_, isSlice := c.x.info.Types[v.X].Type.Underlying().(*types.Slice)
 		_, isArray := c.x.info.Types[v.X].Type.Underlying().(*types.Array)
 		if isSlice || (isArray && !c.isGlobalArray(v.X)) {
@@ -982,6 +1031,12 @@ func (c *xctx) noteMut(e ast.Expr) {
 // ---------------------------------------------------------------------------------------------------------------------
 // statements, continuation-passing
 
+// sliceView: `v := base[lo:hi]` — reads and writes of v[i] go to base[lo+i], range-checked against hi-lo
+type sliceView struct {
+	base   ast.Expr
+	lo, hi string // Nat variables
+}
+
 type kont struct {
 	fall func() string // code for what follows when control falls off the end
 	brk  func() string
@@ -1137,7 +1192,9 @@ func (c *xctx) stmts(ss []ast.Stmt, k kont) string {
 		pre := c.pre
 		c.pre = nil
 		c.depth++
+		scopeLen := len(c.scope) // variables declared inside one branch are not in scope in the other
 		thenCode := c.stmts(v.Body.List, kont{fall: rest, brk: k.brk, cont: k.cont})
+		c.scope = c.scope[:scopeLen]
 		var elseCode string
 		switch el := v.Else.(type) {
 		case nil:
@@ -1197,7 +1254,9 @@ func (c *xctx) stmts(ss []ast.Stmt, k kont) string {
 				}
 			}
 			c.depth++
+			scopeLen := len(c.scope)
 			th := c.stmts(clauses[i].Body, afterSwitch)
+			c.scope = c.scope[:scopeLen]
 			el := build(i + 1)
 			c.depth--
 			return fmt.Sprintf("if %s then%s  %s%selse%s  %s", strings.Join(conds, " || "), c.ind(), th, c.ind(), c.ind(), el)
@@ -1249,6 +1308,28 @@ func (c *xctx) assign(v *ast.AssignStmt) string {
 		}
 	}
 	if v.Tok == token.DEFINE && len(v.Lhs) == 1 && len(v.Rhs) == 1 {
+		if se, ok := v.Rhs[0].(*ast.SliceExpr); ok && se.Low != nil && se.High != nil && se.Max == nil {
+			if _, isSlice := info.Types[se.X].Type.Underlying().(*types.Slice); isSlice {
+				if id, ok := v.Lhs[0].(*ast.Ident); ok {
+					if o := info.Defs[id]; o != nil {
+						_, s1, ok1 := intInfo(info.Types[se.Low].Type)
+						_, s2, ok2 := intInfo(info.Types[se.High].Type)
+						if !ok1 || !ok2 || s1 || s2 {
+							c.x.fail(v, "slice bounds must be unsigned")
+						}
+						lo, hi := c.fresh("lo"), c.fresh("hi")
+						base := c.expr(se.X)
+						loE, hiE := c.expr(se.Low), c.expr(se.High)
+						c.f.canFail = true
+						c.views[o] = &sliceView{base: se.X, lo: lo, hi: hi}
+						c.natVars = append(c.natVars, lo, hi)
+						// Go: panics unless lo <= hi <= cap(base); the slices of the subset are made with len == cap
+						return fmt.Sprintf("let %s := (%s).toNat%slet %s := (%s).toNat%sif %s < %s ∨ %s.size < %s then Go.Res.panic \"slice bounds out of range\" else",
+							lo, loE, c.ind(), hi, hiE, c.ind(), hi, lo, base, hi)
+					}
+				}
+			}
+		}
 		if ue, ok := v.Rhs[0].(*ast.UnaryExpr); ok && ue.Op == token.AND {
 			if _, isLit := ue.X.(*ast.CompositeLit); !isLit {
 				if id, ok := v.Lhs[0].(*ast.Ident); ok {
@@ -1341,6 +1422,11 @@ func (c *xctx) forStmt(v *ast.ForStmt, rest func() string) string {
 		names = append(names, c.name(o))
 		typed = append(typed, fmt.Sprintf("(%s : %s)", c.name(o), c.x.leanType(v, o.Type())))
 	}
+	// immutable Nat variables (bounds of slice views) are passed along, not returned
+	callNames := append(append([]string{}, names...), c.natVars...)
+	for _, nv := range c.natVars {
+		typed = append(typed, fmt.Sprintf("(%s : Nat)", nv))
+	}
 	tuple := "(" + strings.Join(names, ", ") + ")"
 	if len(names) == 1 {
 		tuple = names[0]
@@ -1357,16 +1443,16 @@ func (c *xctx) forStmt(v *ast.ForStmt, rest func() string) string {
 		if v.Post != nil {
 			switch p := v.Post.(type) {
 			case *ast.IncDecStmt:
-				code = c.stmts([]ast.Stmt{p}, kont{fall: func() string { return lname + " fuel " + strings.Join(names, " ") }})
+				code = c.stmts([]ast.Stmt{p}, kont{fall: func() string { return lname + " fuel " + strings.Join(callNames, " ") }})
 				return code
 			case *ast.AssignStmt:
-				code = c.stmts([]ast.Stmt{p}, kont{fall: func() string { return lname + " fuel " + strings.Join(names, " ") }})
+				code = c.stmts([]ast.Stmt{p}, kont{fall: func() string { return lname + " fuel " + strings.Join(callNames, " ") }})
 				return code
 			default:
 				c.x.fail(v, "unsupported for-post")
 			}
 		}
-		return lname + " fuel " + strings.Join(names, " ")
+		return lname + " fuel " + strings.Join(callNames, " ")
 	}
 	done := func() string { return "Go.Res.ok (Sum.inr " + tuple + ")" }
 	scopeLen := len(c.scope)
@@ -1399,7 +1485,7 @@ func (c *xctx) forStmt(v *ast.ForStmt, rest func() string) string {
 		okRet = "Go.Res.ok " + r
 	}
 	code := fmt.Sprintf("Go.Res.bind (%s fuel %s) (fun %s =>%s  match %s with%s  | Sum.inl %s => %s%s  | Sum.inr %s =>%s    %s)",
-		lname, strings.Join(names, " "), r, c.ind(), r, c.ind(), r, okRet, c.ind(), tuple, c.ind(), after)
+		lname, strings.Join(callNames, " "), r, c.ind(), r, c.ind(), r, okRet, c.ind(), tuple, c.ind(), after)
 	if initCode != "" {
 		code = initCode + c.ind() + code
 	}
@@ -1485,7 +1571,7 @@ func (x *xl) translate(f *xfunc) (err error) {
 		}
 	}()
 	gen := func() string {
-		c := &xctx{x: x, f: f, names: map[types.Object]string{}, used: map[string]bool{"fuel": true}, idxMemo: map[*ast.IndexExpr]string{}, aliases: map[types.Object]ast.Expr{}}
+		c := &xctx{x: x, f: f, names: map[types.Object]string{}, used: map[string]bool{"fuel": true}, idxMemo: map[*ast.IndexExpr]string{}, aliases: map[types.Object]ast.Expr{}, views: map[types.Object]*sliceView{}}
 		f.nloops = 0
 		f.aux = nil
 		var params []string
